@@ -213,11 +213,20 @@ def translate_unbounded_groups(tag, tier):
             for (T, B) in lay]
 
 
+def translate_watched_groups(tag, tier):
+    lay = [(8, 2), (2, 3), (3, 5), (1, 4), (2, 1)] if tier == 'quick' else [(t, b) for (t, b) in ks_layouts() if 1 <= t <= 15 and b <= 8]
+    return [Group('%s.translate.unbounded.any_mask.t=%d.basebit=%d' % (tag, T, B), 'c08_keyswitch.c', 'h_translate_watched',
+                  extract=[(KS, 'lweKeySwitchTranslate_fromArray')], loops=True, defines={'H_TRANSLATE_W': None, 'VERIF_T': T, 'VERIF_BASEBIT': B},
+                  gen={'tnz.inc': tnz_inc(T)}, unwind=max(T + 2, 6), timeout=1500, instance={'t': T, 'basebit': B, 'n': 'symbolic', 'mask': 'arbitrary', 'index': 'symbolic'},
+                  replay=('keyswitch', T, min(B, 4), 3))
+            for (T, B) in lay]
+
+
 def c08_groups(tier, tag='C08'):
     gs = [Group(tag + '.lemma.digits', 'c08_keyswitch.c', 'h_lemma_digits', defines={'H_LEMMA': None}, unwind=33, timeout=1200,
                 note='all 2^32 mask values, all valid (t,basebit) symbolic; loop bounded by the word width (complete)'),
           Group(tag + '.lweKeySwitch', 'c08_keyswitch.c', 'h_lweKeySwitch', defines={'H_KEYSWITCH': None}, extract=[(KS, 'lweKeySwitch')])]
-    gs += translate_unbounded_groups(tag, tier)
+    gs += translate_unbounded_groups(tag, tier) + translate_watched_groups(tag, tier)
     if tier == 'quick':
         lay = [(8, 2), (2, 3), (1, 1), (3, 5), (15, 2), (31, 1), (1, 31)]
         ns = [1, 2, 3]
@@ -854,7 +863,7 @@ PROPS = {
                        'centred truncation error <= 2^-(t*basebit+1), carries and wrap; row messages sum to s_i times the rounded value; lweKeySwitch wiring. '
                        'That the real translate loop subtracts exactly the rows those digits select, through the real 3-level table, is a bounded stand-in in n.',
         'assumptions': STD_ASSUME + [
-            'lweKeySwitchTranslate_fromArray: (a) unbounded in n (loop contracts on both loops) for inputs whose coordinates all equal one symbolic value and whose rows ks[i] all point to one well-formed row block (__CPROVER_array_set gives every index a valid row without a quantifier): indices in bounds, the row of the property digit subtracted once per non-zero digit; lifting to unequal coordinates uses that iteration i only reads a_i and ks[i] -- a syntactic fact, not machine-checked; (b) arbitrary coordinates and the table built by the real constructor: bounded stand-in (n in {1,2,3}(,5)), labelled bounded; layouts with t > 15 only in (b)',
+            'lweKeySwitchTranslate_fromArray, unbounded in n (loop contracts on both loops): (a) ARBITRARY mask, one watched index g_i (symbolic): ks[g_i] points to its own well-formed row block, every other ks[i] to a second one (__CPROVER_array_set gives every index a valid row without a quantifier): in iteration g_i exactly the rows of the non-zero round-to-nearest digits of a[g_i] are subtracted, once each, no other iteration touches them, every other access stays inside its block; (a\') all coordinates equal: exactly NZ(A) subtractions per index, n*NZ(A) in total; (b) the table built by the real constructor (3-level pointer structure, strides): bounded stand-in (n in {1,2,3}(,5)), labelled bounded; layouts with t > 15 only in (b)',
             'phase conclusion phase(out) = phase(in) + sum_i s_i(a_i - abar_i) - sum noise(rows used): lemma + induction over n, the induction is not machine-checked',
             'noise statistics with a real noisy key-switching key: not decided (statistical)',
             'lweSubTo is the AVX2 assembly in optimised builds; its scalar body is proved in C14',
